@@ -323,4 +323,109 @@ example : renderRfc (weekdayAbbr 4) (monthAbbr 12) 2014 12 10 55 50 = "fri, 12 d
 example : renderLong (monthName 12) 2014 12 = "12 december 2014".toList := by decide
 example : renderMonthFirst (monthName 3) 2015 7 = "march 07, 2015".toList := by decide
 
+
+/-! ## `DD <month name> YYYY hh:mm:ss` -/
+
+def renderLongHms (nm : List Char) (y d h mi s : Nat) : List Char := renderLong nm y d ++ [' '] ++ clockHMS h mi s
+
+theorem tokenize_long_hms (y d h mi s : Nat) (hy : y ≤ 9999) (hd : d < 100) (hh : h < 100) (hmi : mi < 100) (hs : s < 100)
+    (nm : List Char) (mon monb : Option Nat) (hn : NameFacts nm mon monb) :
+    tokenize (renderLongHms nm y d h mi s) =
+      .ok [(pad2c d, 0), ([' '], 2), (nm, 1), ([' '], 2), (pad4c y, 0), ([' '], 2), (clockHMS h mi s, 0)] := by
+  have y1 : y / 1000 < 10 := by omega
+  have y2 : y / 100 % 10 < 10 := by omega
+  have y3 : y / 10 % 10 < 10 := by omega
+  have y4 : y % 10 < 10 := by omega
+  have d1 : d / 10 < 10 := by omega
+  have d2 : d % 10 < 10 := by omega
+  have h1 : h / 10 < 10 := by omega
+  have h2 : h % 10 < 10 := by omega
+  have i1 : mi / 10 < 10 := by omega
+  have i2 : mi % 10 < 10 := by omega
+  have s1 : s / 10 < 10 := by omega
+  have s2 : s % 10 < 10 := by omega
+  obtain ⟨c, cs, rfl⟩ := List.exists_cons_of_ne_nil hn.nonempty
+  have hc : tkCls c = 1 := hn.letters c (by simp)
+  have hrun := tokGo_run 1 cs ([' '] ++ pad4c y ++ [' '] ++ clockHMS h mi s) [c] (fun x hx => hn.letters x (by simp [hx]))
+  simp only [renderLongHms, renderLong, pad2c, List.cons_append, List.nil_append, List.append_assoc, tokenize, tokGo, tkCls_dch, tkCls_space, d1, d2, hc, if_true] at hrun ⊢
+  simp only [show (2 : Nat) = 0 ↔ False by decide, show (1 : Nat) = 2 ↔ False by decide, if_false, List.reverse_cons, List.reverse_nil, List.nil_append, List.cons_append]
+  rw [hrun]
+  simp [tokGo, pad4c, pad2c, clockHMS, tkCls_dch, tkCls_space, tkCls_colon, y1, y2, y3, y4, h1, h2, i1, i2, s1, s2]
+
+theorem classify_long_hms (y d h mi s : Nat) (hy : y ≤ 9999) (hd : d < 100) (hh : h < 100) (hmi : mi < 100) (hs : s < 100)
+    (nm : List Char) (mon monb : Option Nat) (hn : NameFacts nm mon monb) :
+    classify #[(pad2c d, 0), ([], 2), (nm, 1), ([], 2), (pad4c y, 0), ([], 2), (clockHMS h mi s, 0)] =
+      [rS (pad2c d) d true, { text := nm, ty := 1, mon := mon, monb := monb }, rY (pad4c y) y, rClock (clockHMS h mi s) false] := by
+  have h1 : h / 10 < 10 := by omega
+  have h2 : h % 10 < 10 := by omega
+  have ec : clockHMS h mi s = dch (h / 10) :: dch (h % 10) :: ':' :: (pad2c mi ++ [':'] ++ pad2c s) := by simp [clockHMS, pad2c]
+  have c1 := dirNum_clock_none _ _ h1 h2 (pad2c mi ++ [':'] ++ pad2c s) 'm' (by simp) DT.mo
+  have c2 := dirNum_clock_none _ _ h1 h2 (pad2c mi ++ [':'] ++ pad2c s) 'd' (by simp) DT.d
+  have c3 := dirNum_clock_none _ _ h1 h2 (pad2c mi ++ [':'] ++ pad2c s) 'y' (by simp) DT.y
+  have c4 := dirNum_clock_none _ _ h1 h2 (pad2c mi ++ [':'] ++ pad2c s) 'Y' (by simp) DT.y
+  rw [← ec] at c1 c2 c3 c4
+  simp [classify, rY, rS, rClock, tiYear4, tiSmall, fmt_m, fmt_d, fmt_y, fmt_Y, dirNum_m2, dirNum_d2, dirNum_y2, dirNum_Y2, dirNum_Y4, dirNum_four_none,
+    hy, hd, List.zipIdx, c1, c2, c3, c4, hn.wk, hn.wkb, hn.mon, hn.monb, hn.micro, hn.merid, hn.skip, hn.colon, hn.digits]
+  have hno : ∀ t ∈ [([], 2), (nm, 1), ([], 2), (pad4c y, 0), ([], 2), (clockHMS h mi s, 0)], ¬ '.' ∈ (t : List Char × Nat).1 := by
+    intro t ht
+    simp only [List.mem_cons, List.not_mem_nil, or_false] at ht
+    rcases ht with rfl | rfl | rfl | rfl | rfl | rfl
+    · simp
+    · exact hn.dot
+    · simp
+    · exact dot_pad4 y hy
+    · simp
+    · exact clock_no_dot h mi s hh hmi hs
+  have i1 : mi / 10 < 10 := by omega
+  have i2 : mi % 10 < 10 := by omega
+  have s1 : s / 10 < 10 := by omega
+  have s2 : s % 10 < 10 := by omega
+  have k1 : allAsciiDigits (clockHMS h mi s) = false := by
+    have hc : asciiDigit ':' = false := by decide
+    simp [allAsciiDigits, clockHMS, pad2c, hc]
+  have k2 : meridSearch (clockHMS h mi s) = none := by
+    simp [meridSearch, clockHMS, pad2c, dch_ne, h1, h2, i1, i2, s1, s2]
+  have k3 : ¬ clockHMS h mi s ∈ Gen.parserSkipTokensC := by
+    simp [Gen.parserSkipTokensC, clockHMS, pad2c]
+  have k4 : ':' ∈ clockHMS h mi s := by simp [clockHMS]
+  refine ⟨⟨⟨allAscii_pad2 d hd, natOfAscii_pad2 d hd⟩, micro_pad2 d hd, merid_pad2 d hd, skip_pad2 d hd, colon_pad2 d hd ':' (by simp), dotAfter_false _ hno _⟩,
+    dotAfter_false _ hno _,
+    ⟨⟨allAscii_pad4 y hy, natOfAscii_pad4 y hy⟩, micro_pad4 y hy, merid_pad4 y hy, skip_pad4 y hy, colon_pad4 y hy, dotAfter_false _ hno _⟩,
+    k1, k2, k3, k4, dotAfter_false _ hno _⟩
+
+/-- **C01_long_hms_string**: `DD <month name | abbreviation> YYYY hh:mm:ss` from the characters -/
+theorem C01_long_hms_string (st : PSettings) (ho : st.order = [.month, .day, .year]) (y m d h mi s : Nat) (hd : DateOk y m d) (ht : TimeOk h mi s) (abbr : Bool) :
+    absParse st (renderLongHms (if abbr then monthAbbr m else monthName m) y d h mi s) =
+      .ok ({ y := y, mo := m, d := d, h := h, mi := mi, s := s }, if st.timeAsPeriod then .time else .day) := by
+  have hy : y ≤ 9999 := hd.y2
+  have hdd : d < 100 := by have := hd.d2; have := dim_le_31 y m; omega
+  have hh : h < 100 := by have := ht.h23; omega
+  have hmi : mi < 100 := by have := ht.m59; omega
+  have hs : s < 100 := by have := ht.s59; omega
+  cases abbr
+  · have hn := nameFacts_month m hd.m1 hd.m2
+    simp only [Bool.false_eq_true, if_false]
+    unfold absParse
+    rw [tokenize_long_hms y d h mi s hy hdd hh hmi hs _ _ _ hn]
+    simp only [bind, Except.bind, List.map_cons, List.map_nil, stripWs_pad4 y hy, stripWs_pad2 d hdd, stripWs_space, hn.strip, stripWs_clock h mi s hh hs]
+    rw [classify_long_hms y d h mi s hy hdd hh hmi hs _ _ _ hn]
+    by_cases h5 : m = 5
+    · subst h5
+      have := C01_long_hms st ho y 5 d h mi s hd ht (monthName 5) (pad2c d) (pad4c y) rfl true true true false
+      simpa [rMonth, tiMonthAbbr, clockHMS] using this
+    · have := C01_long_hms st ho y m d h mi s hd ht (monthName m) (pad2c d) (pad4c y) rfl true false false false
+      simpa [rMonth, tiMonthFull, h5, clockHMS] using this
+  · have hn := nameFacts_abbr m hd.m1 hd.m2
+    simp only [if_true]
+    unfold absParse
+    rw [tokenize_long_hms y d h mi s hy hdd hh hmi hs _ _ _ hn]
+    simp only [bind, Except.bind, List.map_cons, List.map_nil, stripWs_pad4 y hy, stripWs_pad2 d hdd, stripWs_space, hn.strip, stripWs_clock h mi s hh hs]
+    rw [classify_long_hms y d h mi s hy hdd hh hmi hs _ _ _ hn]
+    by_cases h5 : m = 5
+    · subst h5
+      have := C01_long_hms st ho y 5 d h mi s hd ht (monthAbbr 5) (pad2c d) (pad4c y) rfl true true true false
+      simpa [rMonth, tiMonthAbbr, clockHMS] using this
+    · have := C01_long_hms st ho y m d h mi s hd ht (monthAbbr m) (pad2c d) (pad4c y) rfl true true false false
+      simpa [rMonth, tiMonthAbbr, h5, clockHMS] using this
+
 end DP
